@@ -78,7 +78,8 @@ try:
             print(f"{sid} {pid}/{tier}: {v}"); [print("   ", l[:300]) for l in lines[:5]]
             if v != "missed":
                 break
-        if verdicts.get(f"{pid}/quick", {}).get("verdict") == "missed" and "--thorough" not in flags and pid == props[0]:
+        if verdicts.get(f"{pid}/quick", {}).get("verdict") == "missed" and "--thorough" not in flags and pid == props[0] \
+                and not os.environ.get("SEED_NO_THOROUGH"):
             t0 = time.time()
             e2 = dict(env, VERIF_REPO=wt, VERIF_EVIDENCE_DIR=f"/root/scratch/seed-ev-{os.getpid()}", VERIF_NO_LEANCHECKER="1")
             rc, out = sh(["./check", pid, "--tier", "thorough"], cwd=V, e=e2, timeout=7200)
